@@ -156,6 +156,23 @@ def c_step(ctx, case):
     if noev:
         j = np.where(s["n"] < case["count_floor"])[0]
         ctx.close(mu[j], p["means"][j], "no-evidence means keep the prior", rtol=0, atol=0)
+    # the same step through the public M-step function, called directly on the prior's statistics with the mode
+    # selected by its own switch (fixed ratio: reynolds_adaptation=False and alpha, relevance_factor left alone)
+    import bob.learn.em.gmm as G
+
+    _, g3 = map_machine(case, 1)
+    st = g3.acc_stats(X)
+    kw = dict(update_means=upd[0], update_variances=upd[1], update_weights=upd[2],
+              mean_var_update_threshold=case["count_floor"])
+    if case["relevance"] is not None:
+        kw.update(reynolds_adaptation=True, relevance_factor=case["relevance"])
+    else:
+        kw.update(reynolds_adaptation=False, alpha=(np.array(case["alpha"], dtype=float) if np.ndim(case["alpha"]) else case["alpha"]))
+    G.map_gmm_m_step(g3, st, **kw)
+    w3, mu3, var3 = sut.params_of(g3)
+    ctx.close(w3, w, "map_gmm_m_step called directly vs one fit iteration: weights", rtol=1e-12, atol=1e-15)
+    ctx.close(mu3, mu, "map_gmm_m_step called directly vs one fit iteration: means", rtol=1e-12, atol=1e-14 * sc)
+    ctx.close(var3, var, "map_gmm_m_step called directly vs one fit iteration: variances", rtol=1e-12, atol=1e-14 * sc * sc)
 
 
 def g_limits(draw):
